@@ -1,5 +1,6 @@
 """C18 - evaluation results and regions survive serialization."""
 import ast
+import re
 
 from ..core import sym
 from ..core.expand import u, call_name, get_arg, bind_args, Expander, is_marker, phi_alternatives
@@ -209,7 +210,7 @@ def rule_json(ck):
     ex = Expander(P, w)
     saves = [n for n in all_nodes(w) if isinstance(n, ast.Call) and isinstance(n.func, ast.Attribute) and n.func.attr == 'save']
     good = len(saves) == 1 and u(saves[0].args[0]) == '%s.to_dict()' % w.positional_params[0] and \
-        'FileSystem(url=%s)' % w.positional_params[1] in u(ex.expand(saves[0].func.value))
+        re.search(r'FileSystem\((url=)?%s\)' % re.escape(w.positional_params[1]), u(ex.expand(saves[0].func.value))) is not None
     (o.ok() if good else o.fail('write_json does not save object.to_dict() through FileSystem(url=fname)'))
     s = P.func('csep.core.repositories.FileSystem.save')
     dumps = calls_in(P, s, 'json.dump')
